@@ -386,6 +386,11 @@ def run(payload):
     old, new = payload.get("old"), payload["new"]
     root = os.path.realpath(tempfile.mkdtemp(prefix="lcc_crash_"))
     scratch = tempfile.mkdtemp(prefix="lcc_crash_ref_")
+    if payload.get("tmpdir"):
+        # the system temporary directory lies on ANOTHER file system than the report directory (tmpfs /tmp, /dev/shm): code that
+        # prepares the report there cannot install it by a rename
+        os.environ["TMPDIR"] = payload["tmpdir"]
+        tempfile.tempdir = None
     try:
         final_name = backend.get_report_filename()
         final = os.path.join(root, final_name)
